@@ -118,6 +118,9 @@ impl Check for C09 {
 				if let Err(pn) = catch(|| linked_settings(ctx)) {
 					ctx.fail(format!("panic: {} :: linked initial settings", pn), "");
 				}
+				if let Err(pn) = catch(|| position_units(ctx)) {
+					ctx.fail(format!("panic: {} :: sounds whose rate is not the device's", pn), "");
+				}
 			}
 			if let Err(pn) = catch(|| long_run(which, ctx)) {
 				ctx.fail(format!("panic: {} :: long run", pn), format!("long run #{}", which));
@@ -507,6 +510,61 @@ fn linked_settings(ctx: &mut Ctx) {
 				ht.stop(tw(0.0));
 				ts.on_start_processing();
 				ts.process(&mut to, 1.0, &info);
+				drop(ts);
+				drop(ht);
+				crate::probes::reap_decoder(first, &stats);
+			}
+		}
+	}
+}
+
+/// positions are reported in seconds of the sound's own sample rate: sounds at 4 / 8 / 48000 Hz on a device of another rate, at
+/// playback rates whose steps are no whole number of source frames, so that callbacks end between two source frames; after every
+/// callback the two reported positions name frames at most one apart, and the audio is the same
+fn position_units(ctx: &mut Ctx) {
+	for (sr, dev) in [(4u32, 8u32), (8, 8), (8, 4), (48000, 44100)] {
+		for rate in [1.0f64, 0.75, 1.5, 0.3] {
+			for chunk in [1usize, 3, 5] {
+				ctx.evals += 1;
+				let frames: Vec<Frame> = (0..64).map(code).collect();
+				let info = MockInfoBuilder::new().build();
+				let dt = 1.0 / dev as f64;
+				let sd = rig::static_data(sr, frames.clone()).playback_rate(PlaybackRate(rate));
+				let first = pacer::count();
+				let (dec, stats) = ScriptedDecoder::new(frames.clone(), sr, vec![2, 1, 3], 1);
+				let td = StreamingSoundData::from_decoder(dec).playback_rate(PlaybackRate(rate));
+				let (mut ss, hs) = sd.into_sound().expect("static");
+				let (mut ts, mut ht) = td.into_sound().map_err(|_| ()).expect("streaming");
+				let mut so = vec![Frame::ZERO; chunk];
+				let mut to = vec![Frame::ZERO; chunk];
+				let what = format!("64-frame sound at {} Hz, playback rate {}, device rate {} Hz, callbacks of {} frames", sr, rate, dev, chunk);
+				'cbs: for cb in 0..8 {
+					pacer::step(first, (chunk as f64 * rate * sr as f64 / dev as f64).ceil() as u64 + 8);
+					ss.on_start_processing();
+					ts.on_start_processing();
+					ss.process(&mut so, dt, &info);
+					ts.process(&mut to, dt, &info);
+					ctx.transitions += 1;
+					for i in 0..chunk {
+						if (so[i].left - to[i].left).abs() > 1e-6 || (so[i].right - to[i].right).abs() > 1e-6 {
+							ctx.fail("streaming output differs from the static sound's :: sounds whose rate is not the device's", format!("{}; callback {} frame {}: static {:?} streaming {:?}", what, cb, i, so[i], to[i]));
+							break 'cbs;
+						}
+					}
+					// (positions are published when the next callback starts)
+					ss.on_start_processing();
+					ts.on_start_processing();
+					let (ps, pt) = (hs.position() * sr as f64, ht.position() * sr as f64);
+					// (until the sound ends: near the end only the tail of the interpolation window is left)
+					if ps < 56.0 && (ps - pt).abs() > 1.0 + 1e-9 {
+						ctx.fail("reported positions differ by more than one frame :: sounds whose rate is not the device's", format!("{}; after callback {}: static {} s = frame {}, streaming {} s = frame {}", what, cb, hs.position(), ps, ht.position(), pt));
+						break 'cbs;
+					}
+				}
+				ctx.nontrivial_extra += 1;
+				ht.stop(tw(0.0));
+				ts.on_start_processing();
+				ts.process(&mut to, dt, &info);
 				drop(ts);
 				drop(ht);
 				crate::probes::reap_decoder(first, &stats);
